@@ -21,17 +21,12 @@ impl State {
 
 //@item broker/src/serial_map.rs struct SerialMap
 impl<T> SerialMap<T> {
+    //@include _shared/serial_map_specs.rs
     //@fn-from broker_serial_map broker/src/serial_map.rs SerialMap::remove
     //@fn-from broker_serial_map broker/src/serial_map.rs SerialMap::get_mut
     //@fn-from broker_serial_map broker/src/serial_map.rs SerialMap::entry
 
-    // `loop { .. break serial; }` (break with a value: outside Verus). ASSUMED: hands out a serial that is not pending and
-    // records the call under it
-    //@fn broker/src/serial_map.rs SerialMap::insert nobody
-        ensures
-            !old(self).elems@.contains_key(r),
-            final(self).elems@ =~= old(self).elems@.insert(r, obj),
-    //@end
+    //@fn-from broker_serial_map broker/src/serial_map.rs SerialMap::insert
 }
 
 //@item broker/src/broker/object.rs struct Object
